@@ -10,54 +10,56 @@ open StunVerif
 /-- decoding succeeds exactly for the right type code and an RFC-allowed value … -/
 theorem decode_iff (k : Kind) (raw : RawAttr) :
     (∃ v, fromRaw k raw = .ok v) ↔ raw.ty = Spec.code k ∧ Spec.accept k raw.value = true := by
-  sorry
+  exact fromRaw_decode_iff k raw
 
 /-- … and then exposes exactly the encoded fields -/
 theorem decode_fields (k : Kind) (raw : RawAttr) (v : AttrVal) (h : fromRaw k raw = .ok v) :
     v = Spec.fields k raw.value := by
-  sorry
+  exact ((fromRaw_ok_iff k raw v).mp h).2.2
 
 /-- a raw attribute of another type is refused as the wrong implementation -/
 theorem wrong_type (k : Kind) (raw : RawAttr) (h : raw.ty ≠ Spec.code k) :
     fromRaw k raw = .error .wrongImpl := by
-  sorry
+  exact fromRaw_wrong_type k raw h
 
 /-- no decoder faults (panics / fails to terminate) on any value of any length -/
 theorem decode_total (k : Kind) (raw : RawAttr) : ∀ f, fromRaw k raw ≠ .error (.fault f) := by
-  sorry
+  exact fun f => fromRaw_no_fault k raw f
 
 /-- encoding yields the right type code, and the declared length is the value length -/
 theorem encode_layout (v : AttrVal) :
     v.toRaw.ty = Spec.code v.kind ∧ v.length = v.toRaw.value.length := by
-  sorry
+  exact ⟨code_eq v.kind, rfl⟩
 
 /-- every in-limit value is RFC-allowed on the wire -/
 theorem encode_allowed (v : AttrVal) (h : v.inLimit = true) :
     Spec.accept v.kind v.toRaw.value = true := by
-  sorry
+  exact accept_valueBytes v h
 
 /-- decode (encode v) = v for every in-limit value -/
 theorem roundtrip (v : AttrVal) (h : v.inLimit = true) : fromRaw v.kind v.toRaw = .ok v := by
-  sorry
+  exact fromRaw_roundtrip v h
 
-/-- every decoded value is in-limit and of the decoder's kind … -/
-theorem decoded_inLimit (k : Kind) (raw : RawAttr) (v : AttrVal) (h : fromRaw k raw = .ok v) :
-    v.inLimit = true ∧ v.kind = k := by
-  sorry
+/-- every decoded value is in-limit and of the decoder's kind (for every value that fits the
+    16-bit attribute length field, i.e. everything that can come out of a message; the three
+    decoders without an upper length check would otherwise produce lists beyond the constructors'
+    own u16 length arithmetic) … -/
+theorem decoded_inLimit (k : Kind) (raw : RawAttr) (v : AttrVal) (h : fromRaw k raw = .ok v)
+    (hl : raw.value.length < 65536) :
+    v.inLimit = true ∧ v.kind = k :=
+  fromRaw_inLimit k raw v h (Or.inl hl)
 
-/-- … hence re-encoding a decoded value is stable -/
+/-- … and re-encoding a decoded value is stable (any length) -/
 theorem stable (k : Kind) (raw : RawAttr) (v : AttrVal) (h : fromRaw k raw = .ok v) :
     fromRaw k v.toRaw = .ok v := by
-  obtain ⟨h1, h2⟩ := decoded_inLimit k raw v h
-  subst h2
-  exact roundtrip v h1
+  exact fromRaw_stable k raw v h
 
 /-- and, for every type but the addresses (whose reserved first byte is ignored on receipt) and
     ERROR-CODE (reserved bits), re-encoding gives back the very bytes that were decoded -/
 theorem reencode_exact (k : Kind) (raw : RawAttr) (v : AttrVal) (h : fromRaw k raw = .ok v)
     (hk : k ≠ .xorMappedAddress ∧ k ≠ .alternateServer ∧ k ≠ .errorCode) :
     v.toRaw = raw := by
-  sorry
+  exact fromRaw_reencode_exact k raw v h hk
 
 /-! Non-vacuity: concrete accepted encodings. -/
 example : fromRaw .errorCode ⟨9, [0, 0, 4, 20, 0x6f, 0x6b]⟩ = .ok (.errorCode 420 [0x6f, 0x6b]) := by
